@@ -26,7 +26,7 @@ var PayloadTokens = [][]byte{
 	StartM, EndM, RedactedM, []byte("\xC3\x97"), {0xE2}, {0x80}, {0xB9}, {0xBA}, {0xE2, 0x80}, {0xC3}, {0x97},
 	{'\n'}, {'\n', '\n'}, {' '}, {'?'}, {'a'}, {'b'}, []byte("xyz"), []byte("é"), []byte("世"), []byte("😀"), {0xFF}, {0xF0, 0x9F}, {'%'}, {'\t'}, {0},
 	// the code points around the markers (U+2038, U+203B, U+2019, U+2039 + U+0300) and bytes that differ from a marker's in one position
-	[]byte("\u2038"), []byte("\u203b"), {0xB8}, {0xBB}, []byte("\u2019"), {0xE2, 0x81, 0xB9}, {0xE1, 0x80, 0xBA}, []byte("\u00ba"), []byte("\u20ba"),
+	[]byte("\u2038"), []byte("\u203b"), {0xB8}, {0xBB}, {'\r'}, {'\r', '\n'}, []byte("\u2019"), {0xE2, 0x81, 0xB9}, {0xE1, 0x80, 0xBA}, []byte("\u00ba"), []byte("\u20ba"),
 }
 
 // ValidTokens is the subset that is valid UTF-8.
